@@ -1254,7 +1254,7 @@ pub fn boundary_plan() -> Vec<(&'static str, usize)> {
         "nf_create_initial", "nf_create_none", "nf_create_named", "nf_mint_empty", "nf_mint_one", "nf_mint_existing", "nf_burn_one", "nf_remint_burnt",
         "nf_mint_burn_same_tx", "nf_remint_after_same_tx", "nf_take_ids_one_new_vault", "nf_take_ids_missing", "nf_take_amount_zero", "nf_take_amount_one",
         "nf_take_amount_fraction", "nf_take_amount_over", "nf_take_amount_all", "nf_deposit_back", "nf_burn_last_id", "nf_recall_last_id", "nf_recall_then_burn",
-        "nf_recall_amount_one", "nf_take_amount_huge", "nf_burn_all", "nf_untracked_mint", "nf_untracked_burn", "nf_data_update", "nf_data_internal_ref", "nf_create_empty_initial",
+        "nf_recall_amount_one", "nf_take_amount_huge", "nf_burn_all", "nf_untracked_mint", "nf_untracked_burn", "nf_data_update", "nf_data_update_wrong_type", "nf_mint_wrong_data_type", "nf_data_internal_ref", "nf_create_empty_initial",
     ] {
         p.push((c, 0));
     }
@@ -1561,6 +1561,18 @@ impl World {
                 let w = self.script.n.get(2)?.clone();
                 let b = self.sb().update_non_fungible_data(w.addr, NonFungibleLocalId::integer(1), "name", "uno".to_string());
                 Self::stx(class, b, vec![], Meta::None, false)
+            }
+            "nf_data_update_wrong_type" => {
+                // the new value does not have the type the resource declared for the field: must be refused,
+                // every stored value has to conform to its schema
+                let w = self.script.n.get(2)?.clone();
+                let b = self.sb().update_non_fungible_data(w.addr, NonFungibleLocalId::integer(1), "name", 7u32);
+                Self::stx(class, b, vec![], Meta::None, true)
+            }
+            "nf_mint_wrong_data_type" => {
+                let w = self.script.n.get(2)?.clone();
+                let b = self.sb().mint_non_fungible(w.addr, vec![(NonFungibleLocalId::integer(2), (7u32, 8u32))]).try_deposit_entire_worktop_or_abort(a0, None);
+                Self::stx(class, b, vec![], Meta::None, true)
             }
             "nf_data_internal_ref" => {
                 // data holding a reference to an internal node (a vault): must be refused, nothing stored may reference a non-global node
